@@ -5,7 +5,7 @@ import common as C
 import gen
 import impl
 
-RULE = ("series of 2..6 frames of one tissue under random / affine / flowing displacement fields inside the stated bounds, every "
+RULE = ("series of 2..6 frames of one tissue under random / affine / flowing displacement fields inside the stated bounds, a growing tissue (9.5 % stretch per step over 5-6 frames), every "
         "frame renumbered independently, optional partial initial_guess (consistent with or overriding proximity), cm on/off; "
         "non-trivial = the series has at least 4 tracked junctions; distinct = (tissue, field, frames, guess kind, cm)")
 TRUSTED = ["Model/Tracking.v (exact rational arithmetic on dyadic coordinates) tied to time_series.create_mapping / find_best / "
@@ -160,6 +160,11 @@ def cases(rng, tier):
         nf = int(rng.integers(2, 7))
         specs, times, truth = gen.series(rng, base, nf, field=field, amp_frac=float(rng.uniform(0.2, 0.9)), zero_junction=bool(k % 2 == 0))
         yield specs, times, truth, f"s{k}/{field}"
+    # a growing tissue: a small brick lattice (junction spacing 11 % of the extent) stretched by 9.5 % per step over five or six frames; every
+    # step is inside the bounds measured on its own pair of frames, the extent of the last pair is 1.4 times that of the first
+    base = gen.lattice_tissue(4, 4, "brick", npts=int(rng.integers(0, 3)), rng=rng)
+    specs, times, truth = gen.series(rng, base, int(rng.integers(5, 7)), field="grow", zero_junction=True)
+    yield specs, times, truth, "growing/brick"
 
 
 def run(res, tier, seed):
